@@ -124,6 +124,52 @@ theorem C13_simple_endgame (p q : Position) (hwf : Spec.wf (Chess.absPos p) = tr
   · rw [if_neg hvn, if_neg hvn]
     exact C13_general_branch p q hwf hq hside hcast
 
+/-- C13 for a position whose first claiming class is `e`, for one strong side only, given that the value of `e` is mirror-symmetric there -/
+theorem C13_class_of_value (p q : Position) (hwf : Spec.wf (Chess.absPos p) = true) (hq : q.board = mirrorBoard p.board)
+    (hside : q.side = 1 - p.side) (hcast : q.castling = mirrorRights p.castling)
+    (pre post : List EG) (e : EG) (hord : egOrder = pre ++ e :: post) (s : Nat) (hs : s ≤ 1)
+    (hpre : ∀ e0, e0 ∈ pre → egApplies e0 (BBs.of p) p.board 0 = false ∧ egApplies e0 (BBs.of p) p.board 1 = false)
+    (hyes : egApplies e (BBs.of p) p.board s = true) (hno : egApplies e (BBs.of p) p.board (1 - s) = false)
+    (hv : egStrongScore e (BBs.of q) q.board (1 - p.side) (1 - s) = egStrongScore e (BBs.of p) p.board p.side s) :
+    evalPure q = evalPure p := by
+  obtain ⟨hbo, hs1, _, hcodes, hcnt⟩ := wf_board_hyps _ hwf
+  have m : MirrorPos p q := ⟨hq, hbo.len, hcodes⟩
+  have hee := endgameScore_class_mirror m hcnt pre post e hord s p.side hs hs1 hpre hyes hno hv
+  unfold evalPure
+  simp only []
+  rw [hside, hee]
+  by_cases hvn : endgameScore (BBs.of p) p.board p.side ≠ VALUE_NONE
+  · rw [if_pos hvn, if_pos hvn]
+  · rw [if_neg hvn, if_neg hvn]
+    exact C13_general_branch p q hwf hq hside hcast
+
+/-- **C13 on four more endgame classes** (KRKN, KNBK, KQKP, KRKP — the evaluators that read the kings and the square of one piece that
+    occurs exactly once): same hypotheses as `C13_simple_endgame`.  That the piece occurs once is read off the material signature
+    (`pcv_decode`); its square on the mirror is the flip of its square (`sq1_mirror`); for KNBK the bishop's square colour flips and
+    with it the choice between the weak king's square and its flip, for KQKP the rook/bishop-file test is a zero test of the pawn set
+    against a flip-invariant mask. -/
+theorem C13_single_piece_endgame (p q : Position) (hwf : Spec.wf (Chess.absPos p) = true) (hq : q.board = mirrorBoard p.board)
+    (hside : q.side = 1 - p.side) (hcast : q.castling = mirrorRights p.castling)
+    (pre post : List EG) (e : EG) (hord : egOrder = pre ++ e :: post) (he : e = .KRKN ∨ e = .KNBK ∨ e = .KQKP ∨ e = .KRKP) (s : Nat) (hs : s ≤ 1)
+    (hpre : ∀ e0, e0 ∈ pre → egApplies e0 (BBs.of p) p.board 0 = false ∧ egApplies e0 (BBs.of p) p.board 1 = false)
+    (hyes : egApplies e (BBs.of p) p.board s = true) (hno : egApplies e (BBs.of p) p.board (1 - s) = false) :
+    evalPure q = evalPure p := by
+  obtain ⟨hbo, hs1, hkings, hcodes, hcnt⟩ := wf_board_hyps _ hwf
+  have m : MirrorPos p q := ⟨hq, hbo.len, hcodes⟩
+  obtain ⟨ks, hks, _⟩ := hkings s hs
+  obtain ⟨kw, hkw, _⟩ := hkings (1 - s) (by omega)
+  obtain ⟨v1, v2, v3⟩ := eg_value_single m s p.side hs ks kw hks hkw
+  apply C13_class_of_value p q hwf hq hside hcast pre post e hord s hs hpre hyes hno
+  rcases he with rfl | rfl | rfl | rfl
+  · have h : pcv p.board = sandbox s [0,0,0,1,0,0,1,0,0,0] [0,1,0,0,0,0,0,0,1,0] := by simpa [egApplies] using hyes
+    exact v1 (pcv_decode p.board hcnt _ _ _ _ _ _ _ _ _ _ (by decide) s hs h).2.2.1
+  · have h : pcv p.board = sandbox s [0,1,1,0,0,0,0,0,0,0] [0,0,0,0,0,0,1,1,0,0] := by simpa [egApplies] using hyes
+    exact v2 (pcv_decode p.board hcnt _ _ _ _ _ _ _ _ _ _ (by decide) s hs h).1.2.2.1
+  · have h : pcv p.board = sandbox s [0,0,0,0,1,1,0,0,0,0] [1,0,0,0,0,0,0,0,0,1] := by simpa [egApplies] using hyes
+    exact (v3 (pcv_decode p.board hcnt _ _ _ _ _ _ _ _ _ _ (by decide) s hs h).2.1).1
+  · have h : pcv p.board = sandbox s [0,0,0,1,0,1,0,0,0,0] [1,0,0,0,0,0,0,0,1,0] := by simpa [egApplies] using hyes
+    exact (v3 (pcv_decode p.board hcnt _ _ _ _ _ _ _ _ _ _ (by decide) s hs h).2.1).2
+
 /-- non-vacuity: a middlegame-like position (kings, a white knight and pawn, a black rook and pawn) is well-formed and no specialised
     endgame claims it or its mirror -/
 def c13gBoard : List Nat := (((((List.replicate 64 0).set 4 6).set 60 12).set 18 2).set 45 10).set 52 7 |>.set 12 1
